@@ -1,12 +1,12 @@
 SPECIFICATION Spec
 CONSTANTS
-  Fam = "beam"
-  NW = 2
+  Fam = "unary"
+  NW = 3
   HeadLeft = TRUE
   G <- Gram
-  TagScores <- Scores013
+  TagScores <- Scores01
   DepScores <- Scores0
-  KBestN = 1
+  KBestN = 3
   MaxStep = 1000
   EstSign = 1
   Ties = "canonical"
